@@ -125,6 +125,8 @@ pub struct CmdCtx<'a> {
     pub fresh_name: String,        // a materialisation name not yet used
     pub fresh_user: String,
     pub creds: &'a [Two],          // credential-like texts to hide inside payloads
+    pub focus_user: Option<String>, // the account grants / revokes concentrate on
+    pub focus_type: String,        // … and the event type
 }
 
 /// One command text. Returns the text and a short label for the tally.
@@ -132,10 +134,14 @@ pub fn gen_command(r: &mut Rng, c: &CmdCtx) -> (Two, &'static str) {
     let et = |r: &mut Rng| -> String {
         match r.below(8) {
             0 => "ev_x".to_string(),
+            1 | 2 | 3 => c.focus_type.clone(),
             _ => r.pick(c.types).clone(),
         }
     };
     let user = |r: &mut Rng| -> String {
+        if let (Some(f), true) = (&c.focus_user, r.chance(1, 2)) {
+            return f.clone();
+        }
         if c.users.is_empty() || r.chance(1, 8) { "nobody".to_string() } else { r.pick(c.users).clone() }
     };
     let mut t = Two::default();
